@@ -177,6 +177,10 @@ def main(argv=None):
         print(f"HARNESS-ERROR property={prop}: {len(errors)} job(s) failed; no verdict")
         return 2
 
+    if os.environ.get("VERIF_PROFILE"):
+        slow = sorted(results, key=lambda r: -r["wall_s"])[:8]
+        for r in slow:
+            print("  slow job:", r["system"], round(r["wall_s"], 1), "s", {k: v for k, v in r["cfg"].items() if k not in ("cost", "seed")})
     findings = load_findings()
     known_seen = {}
     new_viol = []
